@@ -330,3 +330,10 @@ package schedule
 //@ struct UnlimitedConfig
 //@ props C02 C17
 //@ tag Duration validate min-time=1ms
+
+// The configured list of parts, in order, becomes the composite.
+//@ func NewCompositeConf
+//@ props C01 C02 C17
+//@ env [the-listed-parts-are-different-schedules-none-started-yet] forall(a, 0, len(conf.Nested), forall(b, 0, len(conf.Nested), imp(a != b, conf.Nested[a] != conf.Nested[b]))) && forall(k, 0, len(conf.Nested), conf.Nested[k] != nil && !startedOf[conf.Nested[k]])
+//@ at call NewComposite assert [the-configured-parts-in-order] arg(scheds) == conf.Nested
+//@ ensures result == result_of(NewComposite, 0)
